@@ -47,7 +47,7 @@ def seed_table(suffix):
         out.append('| %s | %s: %s | %s | %s | %s |' % (pid, files, (meta.get('description', '') or '').replace('\n', ' ').replace('|', '/')[:230],
                                                     (meta.get('trigger', '') or '').replace('\n', ' ').replace('|', '/')[:200], cell, note[:330].replace('|', '/')))
     return '\n'.join(out), stats
-t1, s1 = seed_table(''); t2, s2 = seed_table('_r2'); t3, s3 = seed_table('_r3'); t4, s4 = seed_table('_r4')
+t1, s1 = seed_table(''); t2, s2 = seed_table('_r2'); t3, s3 = seed_table('_r3'); t4, s4 = seed_table('_r4'); t5, s5 = seed_table('_r5')
 body = open(os.path.join(V, 'tools', 'design9_body.md')).read()
 seeded = ("**Round 1** (one change per property).\n\n" + t1 + ("\n\nRound 1: %d of 20 reported by the quick tier as first built, %d missed at one or both seeds; each miss led to the generator / harness / observation change in the last column, after which the change is reported at seeds 1 and 2 with a concrete shrunk history. One sub-agent (C02) additionally found a genuine crash of the unchanged multi-field engine (known finding `C02-multi-field-stale-row-cells`).\n\n" % (s1[0], s1[1])) +
           "**Round 2** (a second, different change per property, made after the round-1 strengthening; the agents were told which function the first change had touched).\n\n" + t2 +
@@ -59,6 +59,8 @@ seeded += ("\n\n**Round 3** (a third change per property; the agents were told w
             "One sub-agent also reported a defect of the unchanged tree that only exists in release builds (see 9.5, `e6b7ee607`); since then C01, C05, C06, C08 and C09 also run `-O2 -DNDEBUG` builds of their harnesses.\n") % (s3[0], s3[0] + s3[1], s3[1]))
 seeded += ("\n\n**Round 4** (a fourth change per property; the agents were told what the first three had touched, pointed at build configurations and secondary classes, and asked to report defects they noticed in the unchanged code).\n\n" + t4 +
            ("\n\nRound 4: %d of %d reported as the checks stood after round 3, %d missed and fixed as noted.\n") % (s4[0], s4[0] + s4[1], s4[1]))
+seeded += ("\n\n**Round 5** (started three hours before the end of the round and cut short: the machine was saturated by twenty concurrent builds, eleven agents were stopped before delivering, and the nine deliveries below were tried once with the time that was left; no strengthening followed, so the table shows the checks exactly as committed).\n\n" + t5 +
+           ("\n\nRound 5: %d of %d deliveries reported by the checks as committed, %d not reported.\n") % (s5[0], s5[0] + s5[1], s5[1]))
 body = body.replace('FIXED_ROWS', '\n'.join(fixed_rows)).replace('KNOWN_ROWS', '\n'.join(known_rows)).replace('SEEDED_TABLE', seeded)
 d = open(os.path.join(V, 'DESIGN.md')).read()
 i = d.find('\n\n---------------------------------------------------------------------------------------------------------------------\n\n## 9. As built')
